@@ -38,7 +38,7 @@ theorem entry_no_panic (c : Cfg) (hc : c.pinned = false) (tgt : Target) (src : S
   cases src <;> cases tgt <;> simp [hc] at hs ⊢
   all_goals exact no_panic c hc ty hty j
 
-/-- PINNED BEHAVIOUR (defect found in round 5d; fixes/C08-nil-target.patch): an untyped nil target makes every entry point
+/-- PINNED BEHAVIOUR (defect found in round 5d; fixes/not-applied/C08-nil-target.patch): an untyped nil target makes every entry point
 panic — `Unmarshaler.unmarshal` calls `reflect.TypeOf(nil).Kind()`; the repaired code answers `errValueNotSettable` -/
 theorem pinned_nil_target_panics (ty : Ty) (j : J) :
     entryPoint { pinned := true } .nilIface .doc ty j = .error .panic
